@@ -9,12 +9,14 @@ EXTENDS Core, FsModel, FsPolicyOps, TLC, Json, IOUtils
 
 Recs == ndJsonDeserialize(IOEnv.TRACE_FILE)
 VARIABLES i
-Ops(r) == [k \in DOMAIN r.ops |-> [kind |-> r.ops[k].kind, p |-> r.ops[k].p, p2 |-> r.ops[k].p2, d |-> r.ops[k].d]]
+Ops(r) == [k \in DOMAIN r.ops |-> [kind |-> r.ops[k].kind, p |-> r.ops[k].p, p2 |-> r.ops[k].p2, d |-> r.ops[k].d, n |-> r.ops[k].extra]]
 
 \* operations that really happened: everything before the faulted one
 Performed(r) == IF r.fault.at = 0 THEN Ops(r) ELSE SubSeq(Ops(r), 1, r.fault.at - 1)
+\* leftovers of an earlier interrupted edit (follow-up records) are part of the initial state
+Start(r) == WithFiles(EmptyFs("Old"), [k \in DOMAIN r.init |-> <<r.init[k][1], r.init[k][2], r.init[k][3]>>])
 Predicted(r) ==
-    LET fs == Replay(EmptyFs("Old"), Performed(r))
+    LET fs == Replay(Start(r), Performed(r))
     IN IF r.fault.at > 0 /\ r.fault.kind \in {"torn", "torncrash"}
        THEN Torn(fs, Ops(r)[r.fault.at], r.fault.k) ELSE fs
 
@@ -23,7 +25,7 @@ Clause(r, c) ==
     [] c = "C17.error"  -> /\ (r.status = "error" => r.final \in {"Old", "New"})
                            /\ (r.status = "ok" => (r.final = "New" \/ (r.same /\ r.final = "Old")))
                            /\ (~r.encodable => (r.status = "error" /\ r.final = "Old"))
-    [] c = "C17.prefix" -> AllPrefixesSafe(EmptyFs("Old"), Performed(r)) /\ Safe(Predicted(r))
+    [] c = "C17.prefix" -> AllPrefixesSafe(Start(r), Performed(r)) /\ Safe(Predicted(r))
     [] c = "X17.fsmodel" -> \/ OnDisk(Predicted(r), "M") = r.final
                             \/ (r.same /\ {OnDisk(Predicted(r), "M"), r.final} \subseteq {"Old", "New"})
     [] c = "C18.readonly" -> r.status = "ok" /\ Len(r.ops) = 0 /\ r.added = <<>> /\ r.removed = <<>> /\ r.changed = <<>>
